@@ -681,9 +681,21 @@ def guard_condition(fn, exc_name, rename_attr_of=("args",)):
             if isinstance(node.value, ast.Name) and node.value.id in rename_attr_of:
                 return ast.copy_location(ast.Name(id=node.attr, ctx=node.ctx), node)
             return self.generic_visit(node)
+    tr, env = Fn(fn), {}
     for s in fn.body:
+        if isinstance(s, ast.Assign) and len(s.targets) == 1 and isinstance(s.targets[0], ast.Name):
+            # a plain local in front of the guard (an alias of an option) is read through
+            try:
+                probe = Fn(fn)
+                val = probe.expr(A().visit(copy.deepcopy(s.value)), dict(env))
+            except Untranslatable:
+                continue
+            for q in probe.params:
+                tr.param(q)
+            env[s.targets[0].id] = val
+            continue
         if isinstance(s, ast.If) and not s.orelse and len(s.body) == 1 and isinstance(s.body[0], ast.Raise) \
                 and exc_name in ast.unparse(s.body[0]):
-            tr = Fn(fn)
-            return tr.cond(A().visit(copy.deepcopy(s.test)), {}), list(tr.params)
+            tr.params = []
+            return tr.cond(A().visit(copy.deepcopy(s.test)), env), list(tr.params)
     raise Untranslatable(f"no `if ...: raise {exc_name}` guard")
